@@ -152,7 +152,7 @@ IMPORTS = ['Coq.Lists.List', 'Coq.NArith.NArith', 'Coq.Bool.Bool', 'SV.KV.KvBase
 IMPORTS_LOOP = ['Coq.Lists.List', 'Coq.NArith.NArith', 'Coq.Bool.Bool', 'SV.KV.KvBase', 'SV.KV.KvLex', 'SV.KV.KvParse',
                 'SV.KV.KvLoop', 'SV.KV.KvLoopRef', 'SV.KV.KvLoopEquiv', 'SV.KV.KvLoopRoundtrip', 'SV.KV.KvEnum', 'SV.KV.KvLoopEnum',
                 'SV.Gen.KVSer_gen', 'SV.Gen.KVLoop_gen']
-IMPORTS_AUX = ['SV.KV.KvWriter', 'SV.KV.KvFlagProg', 'SV.KV.KvWProg', 'SV.KV.KvWHist', 'SV.KV.KvShift', 'SV.Gen.KVAux_gen']
+IMPORTS_AUX = ['SV.KV.KvWriter', 'SV.KV.KvFlagProg', 'SV.KV.KvWProg', 'SV.KV.KvWHist', 'SV.KV.KvXProg', 'SV.KV.KvShift', 'SV.Gen.KVAux_gen']
 IMPORTS_REFINE = ['Coq.Lists.List', 'Coq.NArith.NArith', 'Coq.Bool.Bool', 'SV.Text.Str', 'SV.Text.Prog', 'SV.Text.Tokenizer',
                   'SV.Text.TokGen', 'SV.KV.KvBase', 'SV.KV.KvLex', 'SV.KV.KvParse', 'SV.KV.KvRefine', 'SV.Gen.KVSer_gen']
 PRE = '''Import ListNotations. Open Scope N_scope.
@@ -1241,8 +1241,9 @@ class CountingFile:
         return len(s)
 
 
-HISTORY_KINDS = ['failed-write', 'nonstr-value', 'cycle-repaired', 'abandoned-export']
-HISTORY_ROTA = ['failed-write', 'nonstr-value', 'failed-write', 'abandoned-export']
+HISTORY_KINDS = ['failed-write', 'nonstr-value', 'cycle-repaired', 'abandoned-export', 'edited-between-calls']
+DISTURBED = 'control-call-before-the-abort-differs'
+HISTORY_ROTA = ['failed-write', 'nonstr-value', 'edited-between-calls', 'abandoned-export']
 
 
 def preorder(kv) -> list:
@@ -1266,7 +1267,7 @@ def history_fails(doc, opts: dict, kind: str, k: int) -> str:
         nodes = preorder(root)
         pre, err = write_text(root, opts)
         if pre != want:      # (state left behind by an earlier history of this process: the key says so)
-            return 'control-call-before-the-abort-differs'
+            return DISTURBED
         try:
             if kind == 'failed-write':
                 cf = CountingFile()
@@ -1276,11 +1277,14 @@ def history_fails(doc, opts: dict, kind: str, k: int) -> str:
                     return f'call-with-a-file-raised:{type(e).__name__}'
                 if cf.n == 0:
                     return ''
-                try:
-                    guarded(root.serialise, FailingFile(1 + k % cf.n), **opts)
-                    return 'error-of-the-file-swallowed'
-                except OSError:
-                    pass
+                # once, twice or three times; one history in 16 repeats the aborted call 130 times (what leaks a little per
+                # aborted call -- a counter, a stack -- shows only when it has accumulated)
+                for rep in range(130 if k % 16 == 0 else 1 + k % 3):
+                    try:
+                        guarded(root.serialise, FailingFile(1 + (k + rep) % cf.n), **opts)
+                        return 'error-of-the-file-swallowed'
+                    except OSError:
+                        pass
             elif kind == 'nonstr-value':
                 leaves = [x for x in nodes if not isinstance(x._value, list)]
                 if not leaves:
@@ -1309,6 +1313,23 @@ def history_fails(doc, opts: dict, kind: str, k: int) -> str:
                     pass
                 finally:
                     blk._value.pop()
+            elif kind == 'edited-between-calls':
+                # not an aborted call: a completed one (the control call above), then the caller edits the tree through the
+                # public API, then writes it again -- the second text must be that of the edited tree (a writer that
+                # remembers text per node would give the old one)
+                if len(nodes) < 2:
+                    return ''
+                x = nodes[1 + k % (len(nodes) - 1)]
+                if isinstance(x._value, list):
+                    x.name = (x.real_name or '') + 'Q"q'
+                else:
+                    x.value = x.value + '\\"e\t'
+                    if k % 3 == 0:
+                        x.name = 'N' + (x.real_name or '')
+                doc = snapshot(root)[2]
+                want, err = write_text(build_root(doc), opts)
+                if want is None:
+                    return ''
             elif kind == 'abandoned-export':
                 gen = root.export()
                 for _ in range(k % 7):
@@ -1622,9 +1643,15 @@ def search(ck: Ck) -> None:
                 ck.count('search_histories')
                 ck.hist('search_history_kind', kind)
                 d = history_fails(doc, opts, kind, hk)
+                if d == DISTURBED:
+                    # what an earlier history of this process left behind hits a fresh tree (e.g. through a re-used id()):
+                    # no replay could show it (a replay is a fresh process); the history that left it behind is reported
+                    ck.count('search_histories_disturbed_by_earlier_ones')
+                    continue
                 if d and may_shrink('history:' + kind, doc):
-                    small = shrink_doc(doc, lambda dd, kind=kind, hk=hk, opts=opts: bool(history_fails(dd, opts, kind, hk)))
-                    cls = history_fails(small, opts, kind, hk) or d
+                    # (shrinking keeps the class: with state left behind in this process anything else is unreliable)
+                    small = shrink_doc(doc, lambda dd, kind=kind, hk=hk, opts=opts, d=d: history_fails(dd, opts, kind, hk) == d)
+                    cls = d
                     report(f'history:{kind}:{cls}', f'after an aborted call ({kind}) the tree is no longer written as a fresh '
                            f'equal tree is ({cls})', small, opts, {'history': kind, 'k': hk})
     ck.sample({'search_tree': SEARCH_CORPUS[6], 'serialised_default': impl_serialise(SEARCH_CORPUS[6], OPTS_WS[0])})
@@ -1824,6 +1851,9 @@ def run(ck: Ck) -> None:
                 'hprog_stateless gen_hprog',
             'writers_read_and_write_no_module_or_class_level_mutable_object': 'Nat.eqb (length gen_writer_state_sites) 0',
             'history_program_and_writer_program_have_the_same_writes_and_child_loops': 'same_skeleton gen_hprog gen_wprog',
+            # the deprecated export() as an instruction program (gen_xprog, KV/KvXProg.v)
+            'export_program_has_no_store_or_mutating_instruction': 'xprog_pure gen_xprog',
+            'export_program_yields_are_those_of_the_export_model': 'xprog_text_ok gen_expcfg gen_xprog',
             'no_store_to_tree_in_writers': 'Nat.eqb (length gen_tree_stores) 0',
             'no_mutating_call_on_tree_in_writers': 'Nat.eqb (length gen_tree_mut_calls) 0',
             # the token loop of parse as a regenerated decision tree (Gen/KVLoop_gen.v) against the reference tree
@@ -1925,6 +1955,8 @@ def run(ck: Ck) -> None:
         ck.explain('instance:no_store_to_tree')
         ck.explain('instance:no_mutating_call')
         ck.explain('instance:writer_program_has_no_store')
+        ck.explain('instance:export_program_has_no_store')
+        ck.explain('instance:export_program_yields_are')
         ck.explain('instance:writer_program_writes_are')
         ck.explain('instance:all_nine_hypotheses')
 
